@@ -165,6 +165,39 @@ type panicErr struct{ s string }
 
 func (e panicErr) Error() string { panic(e.s) }
 
+// detailErr / detailStringer / detailStruct are comparable-LOOKING struct types
+// whose interface member may hold an uncomparable value (slice, map).
+type detailErr struct {
+	Op     string
+	Detail any
+}
+
+func (e detailErr) Error() string { return e.Op }
+
+type detailStringer struct {
+	Op     string
+	Detail any
+}
+
+func (s detailStringer) String() string { return s.Op }
+
+type detailStruct struct {
+	Op     string
+	Detail any
+}
+
+func detailValue(sel int) any {
+	switch sel % 4 {
+	case 0:
+		return []int{1, 2}
+	case 1:
+		return map[string]int{"a": 1}
+	case 2:
+		return nil
+	}
+	return 7
+}
+
 // errSpec is a typed description of an error value; build() makes the Go
 // value, the expectation is derived from the description.
 type errSpec struct {
@@ -197,6 +230,8 @@ func (e *errSpec) build() error {
 		return &ptrErr{e.Msg}
 	case "panic":
 		return panicErr{e.Msg}
+	case "detail":
+		return detailErr{e.Msg, detailValue(len(e.Msg))}
 	}
 	panic("errSpec kind " + e.Kind)
 }
@@ -217,7 +252,7 @@ func (e *errSpec) hasFault() bool {
 }
 
 func genErrSpec(t *rapid.T, depth int, faults bool) *errSpec {
-	kinds := []string{"plain", "plain", "verbose", "plainfmt", "ptr"}
+	kinds := []string{"plain", "plain", "verbose", "plainfmt", "ptr", "detail"}
 	if depth > 0 {
 		kinds = append(kinds, "group", "group")
 	}
@@ -275,6 +310,8 @@ func (s strSpec) build() fmt.Stringer {
 		return panicStringer{s.S}
 	case "slice":
 		return sliceStringer{s.S, "x"}
+	case "detail":
+		return detailStringer{s.S, detailValue(len(s.S))}
 	}
 	panic("strSpec " + s.Kind)
 }
@@ -282,7 +319,7 @@ func (s strSpec) build() fmt.Stringer {
 // want returns the expected string, or the expected error text (PANIC=...).
 func (s strSpec) want() (val string, errText string) {
 	switch s.Kind {
-	case "ok", "ptr":
+	case "ok", "ptr", "detail":
 		return s.S, ""
 	case "nilptr":
 		return "<nil>", ""
@@ -293,7 +330,7 @@ func (s strSpec) want() (val string, errText string) {
 }
 
 func genStrSpec(t *rapid.T, faults bool) strSpec {
-	kinds := []string{"ok", "ptr", "slice"}
+	kinds := []string{"ok", "ptr", "slice", "detail"}
 	if faults {
 		kinds = append(kinds, "nilptr", "panic")
 	}
@@ -313,9 +350,9 @@ type reflStruct struct {
 // genReflect returns a value for zap.Reflect and whether encoding/json can
 // encode it.
 func genReflect(t *rapid.T, faults bool) (v any, label string) {
-	n := 8
+	n := 9
 	if faults {
-		n = 12
+		n = 13
 	}
 	switch rapid.IntRange(0, n).Draw(t, "reflKind") {
 	case 0:
@@ -337,10 +374,12 @@ func genReflect(t *rapid.T, faults bool) (v any, label string) {
 	case 8:
 		return struct{}{}, "empty"
 	case 9:
-		return make(chan int), "chan(unencodable)"
+		return detailStruct{"op", detailValue(rapid.IntRange(0, 3).Draw(t, "detail"))}, "struct-with-interface-member"
 	case 10:
-		return map[string]float64{"x": math.NaN()}, "nanmap(unencodable)"
+		return make(chan int), "chan(unencodable)"
 	case 11:
+		return map[string]float64{"x": math.NaN()}, "nanmap(unencodable)"
+	case 12:
 		return math.NaN(), "nanfloat(unencodable)"
 	default:
 		return func() {}, "func(unencodable)"
